@@ -448,3 +448,64 @@ func Creator(r *rand.Rand) []byte {
 	code := a.Bytes()
 	return append(code[:len(code)-1:len(code)-1], init...)
 }
+
+// DepthProbe recurses into itself with CALL, asking for (gas left - 2000) so that the request is
+// affordable under every rule set (before EIP-150 a request for all remaining gas fails).  A frame
+// whose CALL succeeded stops; the frame whose CALL was refused -- the deepest one, at the call
+// depth limit -- also tries CALLCODE, DELEGATECALL and CREATE from there, so that every
+// depth check reachable without the 63/64 rule is exercised at the limit in one run.
+func DepthProbe() []byte {
+	a := NewAsm()
+	gasArg := func() { a.Push(2000).Op(vm.GAS, vm.SUB) }
+	a.Push(0).Push(0).Push(0).Push(0).Push(0).Op(vm.ADDRESS)
+	gasArg()
+	a.Op(vm.CALL).Jumpi("end")
+	// only reached when the CALL failed
+	a.Push(0).Push(0).Push(0).Push(0).Push(0).Op(vm.ADDRESS)
+	gasArg()
+	a.Op(vm.CALLCODE, vm.POP)
+	a.Push(0).Push(0).Push(0).Push(0).Op(vm.ADDRESS)
+	gasArg()
+	a.Op(vm.DELEGATECALL, vm.POP)
+	a.Push(0).Push(0).Push(0).Op(vm.CREATE, vm.POP)
+	a.Label("end").Op(vm.STOP)
+	return a.Bytes()
+}
+
+// MemoryMatrix: one tiny program per (memory-touching instruction, offset, size) at the boundaries
+// (zero / one byte / word / word+1 / large-but-affordable; destination below or above the source),
+// including a source range that lies beyond the current memory.
+func MemoryMatrix() [][]byte {
+	offs := []uint64{0, 31, 32, 1000, 70000}
+	sizes := []uint64{0, 1, 32, 33, 4000}
+	var out [][]byte
+	add := func(build func(a *Asm)) {
+		a := NewAsm()
+		build(a)
+		a.Op(vm.MSIZE, vm.POP, vm.STOP) // one more instruction: the growth of the probed one becomes observable
+		out = append(out, a.Bytes())
+	}
+	for _, o := range offs {
+		o := o
+		add(func(a *Asm) { a.Push(o).Op(vm.MLOAD, vm.POP) })
+		add(func(a *Asm) { a.Push(7).Push(o).Op(vm.MSTORE) })
+		add(func(a *Asm) { a.Push(7).Push(o).Op(vm.MSTORE8) })
+		for _, s := range sizes {
+			s := s
+			add(func(a *Asm) { a.Push(s).Push(o).Op(vm.KECCAK256, vm.POP) })
+			add(func(a *Asm) { a.Push(s).Push(3).Push(o).Op(vm.CALLDATACOPY) })
+			add(func(a *Asm) { a.Push(s).Push(3).Push(o).Op(vm.CODECOPY) })
+			add(func(a *Asm) { a.Push(s).Push(3).Push(o).PushAddr(HelperA).Op(vm.EXTCODECOPY) })
+			add(func(a *Asm) { a.Push(s).Push(o).Op(vm.LOG0) })
+			add(func(a *Asm) { a.Push(s).Push(o).Push(0).Op(vm.CREATE, vm.POP) })
+			add(func(a *Asm) { // CALL with input area at o and output area at 2*o
+				a.Push(s).Push(2*o).Push(s).Push(o).Push(0).PushAddr(common.BytesToAddress([]byte{4})).Push(50000).Op(vm.CALL, vm.POP)
+			})
+			for _, o2 := range offs { // MCOPY: every (destination, source) pair, source may lie beyond memory
+				o2 := o2
+				add(func(a *Asm) { a.Push(s).Push(o2).Push(o).Op(vm.MCOPY) })
+			}
+		}
+	}
+	return out
+}
